@@ -104,3 +104,16 @@ Proof.
   intros H Hw Hcs. subst. pose proof (m_find_ok_dir _ _ _ H) as D.
   destruct (m_find_some _ _ _ _ Hw H) as [Ha _]. cbn in Ha. inv Ha. discriminate.
 Qed.
+
+(* every directory reachable by a name list is in the enumeration *)
+Lemma m_at_in_dirs cs : forall n es, m_at n cs = Some (MDir es) -> In cs (m_dirs n).
+Proof.
+  induction cs as [|c cs IH]; intros n es H.
+  - cbn in H. inv H. cbn. auto.
+  - destruct n as [|es0]; [discriminate|]. cbn [m_at] in H. cbn [m_dirs]. right.
+    induction es0 as [|[k x] t IHt]; [discriminate|].
+    cbn [m_lookup] in H. destruct (String.eqb k c) eqn:E.
+    + apply String.eqb_eq in E; subst k. apply in_or_app. left.
+      apply in_map. eapply IH; eauto.
+    + apply in_or_app. right. apply IHt. exact H.
+Qed.
